@@ -16,7 +16,7 @@ cleanup() { git -C /repo worktree remove --force "$W" >/dev/null 2>&1; rm -rf "$
 trap cleanup EXIT INT TERM
 rmdir "$W"; git -C /repo worktree add -q --detach "$W" HEAD || exit 2
 case "$CH" in
-  revert:*) git -C "$W" revert -n "${CH#revert:}" >/dev/null 2>&1 || { echo "revert failed"; exit 2; } ;;
+  revert:*) for cm in $(echo "${CH#revert:}" | tr '+' ' '); do git -C "$W" revert -n "$cm" >/dev/null 2>&1 || { echo "revert failed"; exit 2; }; done ;;
   none) ;;
   *) git -C "$W" apply "$CH" 2>/dev/null || { git -C "$W" apply --3way "$CH" >/dev/null 2>&1 && git -C "$W" reset -q; } || { echo "patch does not apply"; exit 2; } ;;
 esac
